@@ -34,7 +34,8 @@ class MultisolutionBestAssignments(View):
     num_solutions = self.params["num_solutions"]
     assert num_solutions > 1
     assert not self.params["metrics_info"].requires_pareto_frontier_optimization
-    values = self.points_sampled_for_af_values[:, 0]
+    # Failed observations carry the lie value (the worst successful value): rank them strictly after every success
+    values = numpy.where(self.points_sampled_failures, numpy.inf, self.points_sampled_for_af_values[:, 0])
 
     first_center_index = numpy.argmin(values)
     search_points = convert_one_hot_to_search_hypercube_points(self.domain, self.one_hot_points_sampled_points)
